@@ -261,6 +261,19 @@ def _close(a, b):
         return a == b
 
 
+def _same_answer(world, a, b):
+    """Objective equality; MinErrorFlow with few_flow_values_epsilon reports the error of *a* solution within
+    (1+eps) of the optimum, so two admissible answers may differ by that factor."""
+    eps = world["args"].get("few_flow_values_epsilon") if world["class"] == "MinErrorFlow" else None
+    if eps:
+        try:
+            a_, b_ = float(a), float(b)
+            return a_ <= (1 + eps) * b_ + 1e-6 and b_ <= (1 + eps) * a_ + 1e-6
+        except Exception:
+            return a == b
+    return _close(a, b)
+
+
 def _conclusive_opt(inv):
     return inv["delivered"] == "kOptimal" and not inv.get("alarm")
 
@@ -301,26 +314,39 @@ def check_run(world, out, ref, faults_fired):
             V("data_when_unsolved", {"getter": "get_objective_value", "solve_exc": out.get("solve_exc")})
     main = [i for i in invs if not i["aux"]]
     if solved:
-        # 1: the reply the answer rests on was a proven optimum
-        if main and not _conclusive_opt(main[-1]):
+        # 1: the reply the answer rests on was a proven optimum.  For a minimum search the returned model is
+        # the k-model with k == objective; if no main-loop invocation has that k, the answer came from the greedy
+        # shortcut (no solver) or from the given-weights model (an auxiliary invocation, which then must be optimal)
+        if cname in models.MIN_SEARCH_CLASSES and cname != "MinGenSet":
+            mk = [i for i in main if i["k"] == post.get("objective")]
+            if mk:
+                if not _conclusive_opt(mk[-1]):
+                    V("solved_without_optimal_proof", {"last": mk[-1]})
+            else:
+                gw = [i for i in invs if any(c.endswith("._solve_with_given_weights") for c in i["chain"])]
+                if gw and not _conclusive_opt(gw[-1]) and not (world["args"].get("optimization_options") or {}).get("optimize_with_greedy", cname == "MinFlowDecomp"):
+                    V("solved_without_optimal_proof", {"last": gw[-1], "route": "given_weights"})
+        elif main and not _conclusive_opt(main[-1]):
             V("solved_without_optimal_proof", {"last": main[-1]})
         # 3: no inconclusive k was skipped on the way
         if cname in models.MIN_SEARCH_CLASSES and main:
-            for i in main[:-1]:
+            for i in main:
+                if i["k"] is not None and post.get("objective") is not None and i["k"] >= post.get("objective"):
+                    continue
                 if _inconclusive(i):
                     V("skipped_inconclusive_k", {"skipped": i, "returned": post.get("objective")})
                     break
         # 2: never another answer than the fault-free one
-        if cname != "NumPathsOptimization" and ref is not None:
-            if ref["solved"] and not _close(post.get("objective"), ref["objective"]):
+        if cname != "NumPathsOptimization" and ref is not None and not ref.get("solve_exc"):
+            if ref["solved"] and not _same_answer(world, post.get("objective"), ref["objective"]):
                 V("wrong_answer", {"objective": post.get("objective"), "reference": ref["objective"]})
             elif not ref["solved"] and not ref.get("solve_exc"):
                 V("wrong_answer", {"objective": post.get("objective"), "reference": "unsolved"})
         if "solution_exc" in post or "objective_exc" in post:
             V("solved_but_getters_raise", {"post": {k: post.get(k) for k in ("solution_exc", "objective_exc")}})
     # no fault fired: the run must equal the reference exactly
-    if ref is not None and not faults_fired and not out.get("solve_exc"):
-        if solved != ref["solved"] or (solved and cname != "NumPathsOptimization" and not _close(post.get("objective"), ref["objective"])):
+    if ref is not None and not faults_fired and not out.get("solve_exc") and not ref.get("solve_exc"):
+        if solved != ref["solved"] or (solved and cname != "NumPathsOptimization" and not _same_answer(world, post.get("objective"), ref["objective"])):
             V("faultfree_differs", {"solved": solved, "objective": post.get("objective"), "reference": ref})
     # 7: timer hygiene
     if out.get("alarm_armed_after"):
